@@ -17,6 +17,9 @@ def run(R, cfg, over=None):
     sp = D.build_step(R, H)
     D.inv_step(R, sp)
     D.prove_list(R, sp, lambda st, act, ns, ts: H.conserve(st, act, ns, ts) or [], prefix="conservation: ", guard=D.not_last)
+    if D.escaped_domain(R):
+        D.escalate_two_steps(R, H, lambda st, act, ns, ts: [(n, D.not_last(st, act, ns, ts).implies(v)) for n, v in
+                                                           [("Inv(S''): " + n_, v_) for n_, v_ in H.inv(ns, None)] + [("conservation: " + n_, v_) for n_, v_ in (H.conserve(st, act, ns, ts) or [])]])
     if getattr(H, "RESET_INV", True):
         D.inv_reset(R, H)
     if hasattr(H, "kernels_c07"):
